@@ -87,7 +87,9 @@ pub struct ConcCase {
 pub fn rec_for(p: u32) -> Rec {
     let q = p as i64;
     Rec {
-        as_of_s: 1_000 + q,
+        // every third publication carries an as-of instant older than its predecessor's (a restarted
+        // daemon's place-holder, a report reordered in the mailbox): publication order is not time order
+        as_of_s: if q % 3 == 2 { 500 + q } else { 1_000 + q },
         as_of_ns: (q * 7919) % 1_000_000_000,
         void_s: 2_000 + q,
         void_ns: q % 1_000_000_000,
@@ -1679,7 +1681,7 @@ impl Property for C18 {
     type Case = ConcCase;
     const ID: &'static str = "C18";
     fn rule() -> String {
-        "cases = as C02 plus: a writer that stops for ever before its n-th scheduling point (n in 0..70: inside start-up, inside any update, between updates), either dead (mapping, descriptors and locks gone) or stalled (it keeps them; half of the stopped writers), and 'under fire' calls during which the writer completes one more update after every copy the reader makes (1..40 rounds generated; the full 1,000,000-retry budget in the enumerated extras). Oracle per snapshot() call, counted by the shim: if the first version read is 0, or the first generation read is 0, odd or equal to the cached one, the call makes no record copy and at most 2 shared loads and returns its previous snapshot; every call returns within 2^25 (33.5 M) shared accesses (the code's own budget is 10^6 retries x ~10 accesses = 10 M); a failed call must have tried at least one copy; plus C02's no-mixture oracle. Non-trivial: >= 3 retries in a call, or the writer stopped inside an update while a reader call overlapped it, or a call that exhausted the retry budget.".into()
+        "cases = as C02 plus: a writer that stops for ever before its n-th scheduling point (n in 0..70: inside start-up, inside any update, between updates), either dead (mapping, descriptors and locks gone) or stalled (it keeps them; half of the stopped writers), and 'under fire' calls during which the writer completes one more update after every copy the reader makes (1..40 rounds generated; 5,000,000 rounds in the enumerated extras: past the 1,000,000-retry budget of the code and past the 2^25-access limit). Oracle per snapshot() call, counted by the shim: if the first version read is 0, or the first generation read is 0, odd or equal to the cached one, the call makes no record copy and at most 2 shared loads and returns its previous snapshot; every call returns within 2^25 (33.5 M) shared accesses (the code's own budget is 10^6 retries x ~10 accesses = 10 M); a failed call must have tried at least one copy; plus C02's no-mixture oracle. Non-trivial: >= 3 retries in a call, or the writer stopped inside an update while a reader call overlapped it, or a call that exhausted the retry budget.".into()
     }
     fn assumptions() -> Vec<String> {
         C02::assumptions()
@@ -1765,8 +1767,10 @@ impl Property for C18 {
         // (b) continuous updates: the writer completes an update after every copy, for more rounds
         //     than the retry budget
         let rounds = match tier {
-            Tier::Quick => vec![5u32, 1_000_100],
-            Tier::Thorough => vec![5u32, 999_999, 1_000_000, 1_000_100],
+            // 5 000 000 rounds: an implementation whose budget is renewed by the writer's progress
+            // would go on past 2^25 accesses; one that gives up after its budget never gets that far
+            Tier::Quick => vec![5u32, 5_000_000],
+            Tier::Thorough => vec![5u32, 999_999, 1_000_000, 1_000_100, 5_000_000],
         };
         for r in rounds {
             if ex.failure.is_some() {
@@ -1789,7 +1793,7 @@ impl Property for C18 {
             ex.evaluations += 1 + vd.sub_evals;
             ex.nontrivial_hashes.push(hash_str(&serde_json::to_string(&case).unwrap()));
             ex.label(if vd.labels.contains(&"retry-budget-exhausted-call-returned-error") { "under-fire:budget-exhausted" } else { "under-fire:succeeded" });
-            if r > 1_000_000 {
+            if r > 1_000_000 && r < 2_000_000 || (tier == Tier::Quick && r > 1_000_000) {
                 ex.samples.push(serde_json::json!({"under_fire_case": case, "labels": vd.labels}));
             }
             if let Some(m) = vd.fail {
@@ -1817,12 +1821,20 @@ fn life_strategy(max_stop: u32) -> BoxedStrategy<Life> {
         .boxed()
 }
 
+/// A valid segment whose declared size and file length are `n` > 72 bytes (record 0, then padding).
+pub fn long_segment(n: usize, gen: u16) -> Vec<u8> {
+    let mut b = segment_bytes(&Hdr { size: n as u32, ..Hdr::valid(gen) }, &rec_for(0));
+    b.resize(n, 0x5A);
+    b
+}
+
 fn c04_init_strategy() -> BoxedStrategy<InitFile> {
     prop_oneof![
         3 => Just(InitFile::Missing),
         3 => init_strategy(),
         1 => prop::collection::vec(any::<u8>(), 0..80).prop_map(|bytes| InitFile::Garbage { bytes }),
         1 => (0usize..72).prop_map(|n| InitFile::Garbage { bytes: segment_bytes(&Hdr::valid(6), &rec_for(0))[..n].to_vec() }),
+        1 => (73usize..600, prop_oneof![Just(2u16), Just(7u16), Just(65534u16), 1u16..=u16::MAX]).prop_map(|(n, gen)| InitFile::Garbage { bytes: long_segment(n, gen) }), // left by a build with a longer layout
         1 => Just(InitFile::Garbage { bytes: segment_bytes(&Hdr { version: 0, ..Hdr::valid(0) }, &Rec::default()) }), // freshly wiped
         1 => Just(InitFile::Garbage { bytes: segment_bytes(&Hdr { version: 1, ..Hdr::valid(0) }, &Rec::default()) }), // died before the first publication
     ]
@@ -2033,7 +2045,7 @@ impl Property for C04 {
     }
     fn extra(_tier: Tier, env: &mut Env, _seed: u64) -> Extra {
         let mut ex = Extra::default();
-        let inits = [InitFile::Missing, InitFile::Valid { gen: 10 }, InitFile::Valid { gen: 11 }, InitFile::Valid { gen: 65534 }];
+        let inits = [InitFile::Missing, InitFile::Valid { gen: 10 }, InitFile::Valid { gen: 11 }, InitFile::Valid { gen: 65534 }, InitFile::Garbage { bytes: long_segment(400, 10) }];
         let mut stop_names: std::collections::BTreeSet<String> = Default::default();
         for init in &inits {
             // length of a life in scheduling points, from a dry run
